@@ -1,6 +1,7 @@
 package main
 
 import (
+	"vharness/c01"
 	"vharness/c03"
 	"vharness/c04"
 	"vharness/c05"
@@ -21,6 +22,7 @@ func add(pkg string, m map[string]func(*vrt.Ctx)) {
 }
 
 func init() {
+	add("c01", c01.Harnesses)
 	add("c03", c03.Harnesses)
 	add("c04", c04.Harnesses)
 	add("c05", c05.Harnesses)
